@@ -159,7 +159,37 @@ def plan(tier, seed):
     if tier == "thorough":
         jobs += [{"shard": i, "nshards": n, "tier": tier, "seed": seed, "env": {"PYTHONHASHSEED": "1"}}
                  for i in range(n)]
+    # generated modules (xv.gencfg CFG programs, xv.c14_gen arith/scf/memref programs): shapes the corpus lacks
+    ngen, per = (256, 16) if tier == "quick" else (4096, 128)
+    base = seed * 1_000_003
+    jobs += [{"kind": "gen", "seeds": list(range(base + k, base + k + per)), "shard": 10_000 + k, "nshards": 1,
+              "tier": tier, "seed": seed} for k in range(0, ngen, per)]
     return jobs
+
+
+# passes that are meant to accept ANY func/arith/scf/cf/memref program; only these are applied to generated
+# modules (other passes have narrow input domains and are exercised on the corpus, where the known-finding keys are
+# file-granular and closed under sampling)
+GEN_PASSES = ["canonicalize", "cse", "dce", "constant-fold-interp", "licm", "control-flow-hoist", "convert-scf-to-cf",
+              "scf-for-loop-flatten", "scf-for-loop-range-folding", "scf-for-loop-unroll", "lower-affine",
+              "reconcile-unrealized-casts", "arith-add-fastmath", "convert-arith-to-varith", "convert-varith-to-arith",
+              "apply-individual-rewrite", "shape-inference", "eqsat-create-eclasses"]
+
+
+def generated_modules(seeds):
+    """[(index, (pseudo file, seed, text))] - two thirds CFG programs, one third C14-style programs."""
+    from xv import gencfg
+    from xv.c14_gen import Gen14
+    out = []
+    for sd in seeds:
+        r = random.Random(sd)
+        if sd % 3 != 2:
+            text, _, _ = gencfg.gen_cfg_func(r)
+            out.append((sd, ("gen:gencfg", sd, text)))
+        else:
+            g = Gen14(r)
+            out.append((sd, ("gen:c14gen", sd, g.module_text()[0])))
+    return out
 
 
 def module_tokens(m):
@@ -231,8 +261,11 @@ def work(job):  # noqa: C901
     overriders = [n for n, cls in classes.items() if "schedule_space" in cls.__dict__]
 
     signal.signal(signal.SIGPROF, _alarm)
-    chunks = corpus.chunks()
-    mine = corpus.shard(list(enumerate(chunks)), job["shard"], job["nshards"])
+    if job.get("kind") == "gen":
+        mine = generated_modules(job["seeds"])
+    else:
+        chunks = corpus.chunks()
+        mine = corpus.shard(list(enumerate(chunks)), job["shard"], job["nshards"])
     triggered = set()
     succeeded = set()
     seen_keys = set()
@@ -330,10 +363,12 @@ def work(job):  # noqa: C901
     for gi, (rel, idx, text) in mine:
         pv = corpus.parse_verified(text, rel)
         if pv is None:
+            if rel.startswith("gen:"):
+                raise RuntimeError(f"harness: generated module {rel}#{idx} does not parse/verify")
             C["chunks_not_verified"] += 1
             continue
         ctx0, m0 = pv
-        C["modules"] += 1
+        C["modules_generated" if rel.startswith("gen:") else "modules"] += 1
         base = canon_ir(m0)
         # does the unmodified module survive print/parse? (C04 territory; if not, stage (d) is skipped)
         try:
@@ -349,7 +384,10 @@ def work(job):  # noqa: C901
             raise RuntimeError(f"harness: clone of {rel}#{idx} differs from the parsed module")
         toks = module_tokens(m0)
         todo = []
-        if tier == "thorough":
+        if rel.startswith("gen:"):
+            todo = [(n, n, defaults[n]) for n in GEN_PASSES if n in defaults]
+            vs = []
+        elif tier == "thorough":
             todo = [(n, n, inst) for n, inst in defaults.items()]
             vs = list(all_variants)
         else:
